@@ -787,6 +787,7 @@ Section DebtProgs.
   Definition wf_op (o : op) : Prop :=
     match o with
     | OpRelease ((a, oh) :: t) _ => wf_rel (block_of cf a) ((a, oh) :: t)
+    | OpAutoAssignM _ _ _ _ _ | OpAssignIPM _ _ _ _ _ => False   (* MaxAlloc operations are outside the ledger theorems *)
     | _ => True
     end.
 
@@ -914,6 +915,8 @@ Section DebtProgs.
     - eapply (safeD_weaken _ _ _ _ (Peq d Tr)); [intros ? ? ? ? X; apply Peq_Pdq; exact X | apply d_release_by_handle; exact BUD].
     - eapply (safeD_weaken _ _ _ _ (Peq d Tr)); [intros ? ? ? ? X; apply Peq_Pdq; exact X | apply d_claim_aff_loop].
     - eapply (safeD_weaken _ _ _ _ (Peq d Tr)); [intros ? ? ? ? X; apply Peq_Pdq; exact X | apply d_release_aff_loop].
+    - destruct WF.
+    - destruct WF.
   Qed.
 
   (* ================================================================== the same programs without any bound on the
@@ -1226,5 +1229,7 @@ Section DebtProgs.
     - apply u_release_by_handle.
     - eapply to_PT. apply d_claim_aff_loop.
     - eapply to_PT. apply d_release_aff_loop.
+    - destruct WF.
+    - destruct WF.
   Qed.
 End DebtProgs.
